@@ -54,8 +54,8 @@ theorem C08_denominator_used (obj : Objective) (x d : Img) :
 
 /-- after set_up (denominator not given by the user) the stored denominator is minus the approximate Hessian (without
     penalty) applied to the uniform image.  (For `Problem.toObjective` that is `Problem.hessOnes`: with normalisation the
-    data enter as `y·n²`, every TOF bin is a row, and — as in the code — the end planes of segment 0 take part even when
-    `zero_seg0_end_planes` removes them from gradient and sensitivity: `C08_denominator_includes_zeroed_end_planes`.) -/
+    data enter as `y·n²`, every TOF bin is a row, and the end planes of segment 0 are left out when `zero_seg0_end_planes`
+    removes them from gradient and sensitivity: `C08_denominator_excludes_zeroed_end_planes`.) -/
 theorem C08_denominator_after_setup (p : Params) (obj : Objective) (start : Int) (target img d : Img)
     (h : setUp p obj start target = some (img, d)) (hd : p.denominatorOnes = false) : d = obj.hessOnes.map (fun a => -a) := by
   have := (setUp_some p obj start target img d h).1
@@ -474,12 +474,13 @@ def witZeroed : Problem :=
     rows := #[{ vg := 0, subset := 0, y := 2, add := 0, elems := [(0, 1)] },
               { vg := 1, subset := 0, y := 2, add := 0, elems := [(0, 1)], zeroed := true }] }
 
-/-- the clause "D = minus the approximate log-likelihood Hessian applied to a uniform image" FAILS for the code as it is when
-    `zero_seg0_end_planes` is set (known finding `denominator:includes-zeroed-seg0-end-planes`): gradient and sensitivity of the
-    objective function leave the zeroed bin out (gradient at x = 1: 2/1 - 1 = 1, sensitivity 1: one bin), but the denominator
-    counts it (1/2 + 1/2 = 1 instead of 1/2: the Hessian of the one-bin objective on the uniform image) -/
-theorem C08_denominator_includes_zeroed_end_planes :
-    witZeroed.gradLik 0 #[1] = #[1] ∧ witZeroed.sensitivity = #[1] ∧ witZeroed.hessOnes = #[-1] ∧
+/-- the clause "D = minus the approximate log-likelihood Hessian applied to a uniform image" with `zero_seg0_end_planes`
+    (repaired code; before `fix: Hessian functions honour zero_seg0_end_planes` the denominator counted the zeroed bin: known
+    finding `denominator:includes-zeroed-seg0-end-planes`): gradient, sensitivity AND denominator leave the zeroed bin out
+    (gradient at x = 1: 2/1 - 1 = 1, sensitivity 1, denominator 1/2: the Hessian of the one-bin objective on the uniform image,
+    the same as for the problem without the zeroed bin) -/
+theorem C08_denominator_excludes_zeroed_end_planes :
+    witZeroed.gradLik 0 #[1] = #[1] ∧ witZeroed.sensitivity = #[1] ∧ witZeroed.hessOnes = #[-1 / 2] ∧
       ({ witZeroed with rows := witZeroed.rows.pop } : Problem).hessOnes = #[-1 / 2] := by
   refine ⟨?_, ?_, ?_, ?_⟩ <;> decide +kernel
 
